@@ -1,0 +1,30 @@
+//go:build verif
+
+// Contracts for package utils, read by /verif/govc. Comment-only; never compiled into the library.
+package utils
+
+//@ spec ishex(b byte) bool = (b >= '0' && b <= '9') || (b >= 'a' && b <= 'f')
+//@ spec hexchar(n byte) byte = ite(n <= 9, n + '0', n - 10 + 'a')
+
+//@ func nibbleToHexChar
+//@   ensures hex: nibble <= 15 ==> result == hexchar(nibble)
+//@   ensures ishex: ishex(result)
+
+//@ func bcdConvert
+//@   mode contract
+//@   ensures len: len(result) == 2*len(data)
+//@   ensures fresh: fresh(result)
+//@   ensures ishex: forall(k, 0, len(result), ishex(result[k]))
+//@   ensures hi: forall(k, 0, len(data), result[2*k] == hexchar(data[k] >> 4))
+//@   ensures lo: forall(k, 0, len(data), result[2*k+1] == hexchar(data[k] & 0x0f))
+//@   loop 1 invariant idx: index == 2*i && 0 <= i && i <= len(data) && len(out) == 2*len(data) && fresh(out)
+//@   loop 1 invariant data: forall(k, 0, len(data), data[k] == old(data[k]))
+//@   loop 1 invariant ishex: forall(k, 0, index, ishex(out[k]))
+//@   loop 1 invariant hi: forall(k, 0, i, out[2*k] == hexchar(data[k] >> 4))
+//@   loop 1 invariant lo: forall(k, 0, i, out[2*k+1] == hexchar(data[k] & 0x0f))
+
+//@ func CreateVerifyCode
+//@   mode contract
+//@   ensures C01.xor: result == xorfold(data, len(data))
+//@   loop 1 invariant acc: code == xorfold(data, rangeindex + 1)
+//@ spec xorfold(d []byte, n int) byte = ite(n <= 0, 0, xorfold(d, n-1) ^ d[n-1])
